@@ -44,6 +44,20 @@ def specTruncatedWeak {α} [DecidableEq α] (sent : List α) (o : Obs (List α))
   | .err => true
   | .ok got => got.length < sent.length && got.length > 0 && got == sent.take got.length
 
+/-- number of frames that lie completely within the first `cut` bytes of a stream made of frames of
+    the given lengths -/
+def completeCount : List Nat → Nat → Nat
+  | [], _ => 0
+  | l :: ls, cut => if l ≤ cut then 1 + completeCount ls (cut - l) else 0
+
+/-- what reading the first `cut` bytes (a strict prefix) of a written response stream may at most
+    yield if "error" is not demanded: an error when not even the first frame is complete, otherwise
+    EXACTLY the responses whose frames are complete — no dropped frame, no invented value -/
+def specTruncatedExact {α} [DecidableEq α] (frameLens : List Nat) (sent : List α) (cut : Nat)
+    (o : Obs (List α)) : Bool :=
+  let j := completeCount frameLens cut
+  o == (if j = 0 then .err else .ok (sent.take j))
+
 /-- textbook little-endian base-128 length: `(value, number of bytes used)`; at most 10 bytes,
     and the tenth may only contribute bit 63 -/
 def specDelimiter (s : Bytes) : Option (Nat × Nat) :=
